@@ -12,14 +12,17 @@ package main
 
 import (
 	"bytes"
+	"context"
 	"fmt"
 	"io"
 	"net/http"
 	"os"
 	"path/filepath"
 	"strings"
+	"time"
 
 	"github.com/spf13/afero"
+	"go.uber.org/zap"
 
 	grpcgun "github.com/yandex/pandora/components/guns/grpc/scenario"
 	httpgun "github.com/yandex/pandora/components/guns/http_scenario"
@@ -120,6 +123,19 @@ func mfRenderDesc(c mfCase) (name, text string, files map[string]string) {
 		}
 	case cls == "missing_source":
 		delete(files, "testdata/users.csv")
+	case cls == "bad_csv":
+		files["testdata/users.csv"] = "user_id,login,pass\n1,\"unterminated,1\n2,2,2\n"
+	case cls == "bad_json_source":
+		files["testdata/filter.json"] = "{\"name\": "
+	case cls == "unknown_source":
+		d.rep(pick(`"file/json"`, `type: file/json`), pick(`"file/nosuch"`, `type: file/nosuch`), 1)
+	case cls == "no_scenarios":
+		cut := pick("scenario \"scenario_name\" {", "scenarios:")
+		i := strings.Index(d.text, cut)
+		if i < 0 {
+			machinery("class %s: payload does not contain %q", cls, cut)
+		}
+		d.text = d.text[:i]
 	case cls == "neg_weight":
 		d.rep(pick("weight           = 50", "weight: 50"), pick("weight           = -50", "weight: -50"), 1)
 	case cls == "var_randint_eq":
@@ -177,6 +193,13 @@ func mfRunDescCase(c mfCase) mfLine {
 		return mfRunConfigCase(c)
 	}
 	name, text, files := mfRenderDesc(c)
+	evs, info := mfDescPipeline(c.Format, name, text, files)
+	return mfLine{K: "case", C: &c, Evs: evs, Info: info}
+}
+
+// mfDescPipeline takes one scenario description through construct -> run -> prepare -> post and records
+// the stages passed and how it ended.
+func mfDescPipeline(format, name, text string, files map[string]string) ([]mfEvent, map[string]interface{}) {
 	// the plugins were registered with mfFS: rewrite its content for this case
 	mfFS.RemoveAll("/scn")
 	mfFS.RemoveAll("testdata")
@@ -184,39 +207,100 @@ func mfRunDescCase(c mfCase) mfLine {
 	for fn, content := range files {
 		afero.WriteFile(mfFS, fn, []byte(content), 0o644)
 	}
-	proto, _, _ := strings.Cut(c.Format, "_")
+	proto, _, _ := strings.Cut(format, "_")
 	conf := scenario.ProviderConfig{File: name}
-	var got core.Ammo
-	r := mfRunProvider(func() (core.Provider, error) {
-		if proto == "http" {
-			return scnhttp.NewProvider(mfFS, conf)
-		}
-		return scngrpc.NewProvider(mfFS, conf)
-	}, func(a core.Ammo) mfDelivery { got = a; return mfDelivery{} }, 1)
-
 	evs := []mfEvent{}
-	info := map[string]interface{}{"ctor_err": errStr(r.ctorErr), "run_err": errStr(r.runErr)}
-	line := func() mfLine { return mfLine{K: "case", C: &c, Evs: evs, Info: info} }
-	if len(r.panics) > 0 {
-		evs = append(evs, mfEvent{"Panic", trunc(strings.Join(r.panics, " | "), 200)})
-		return line()
+	info := map[string]interface{}{}
+	panics := make(chan string, 4)
+	var p core.Provider
+	var ctorErr error
+	safely(panics, "constructor", func() {
+		if proto == "http" {
+			p, ctorErr = scnhttp.NewProvider(mfFS, conf)
+		} else {
+			p, ctorErr = scngrpc.NewProvider(mfFS, conf)
+		}
+	})
+	info["ctor_err"] = errStr(ctorErr)
+	select {
+	case pm := <-panics:
+		return append(evs, mfEvent{"Panic", trunc(pm, 200)}), info
+	default:
 	}
-	if r.ctorErr != nil {
-		evs = append(evs, mfEvent{"End", "rejected"})
-		return line()
+	if ctorErr != nil {
+		return append(evs, mfEvent{"End", "rejected"}), info
 	}
 	evs = append(evs, mfEvent{"Stage", "construct"})
-	if r.runErr != nil || got == nil {
-		if r.runErr == nil {
+	// run: Run in its own goroutine, ONE Acquire in another.  The scenario provider streams its ammo list
+	// for ever (no limit/passes here) until cancelled, so: ammo first -> cancel -> Run must return; Run first ->
+	// it ended without handing anything out.  (The scenario provider does not close its sink when Run
+	// ends - DESIGN §5 #8, property C08 - so a consumer may stay blocked; that is recorded, not judged here.)
+	ctx, cancel := context.WithCancel(context.Background())
+	defer cancel()
+	type runRes struct {
+		err      error
+		panicked bool
+	}
+	runDone := make(chan runRes, 1)
+	go func() {
+		var err error
+		ok := false
+		safely(panics, "Run", func() { err = p.Run(ctx, core.ProviderDeps{Log: zap.NewNop(), PoolID: "verif"}); ok = true })
+		runDone <- runRes{err, !ok}
+	}()
+	type acqRes struct {
+		a  core.Ammo
+		ok bool
+	}
+	acq := make(chan acqRes, 1)
+	go func() {
+		safely(panics, "Acquire", func() {
+			a, ok := p.Acquire()
+			acq <- acqRes{a, ok}
+		})
+	}()
+	var got core.Ammo
+	var rr runRes
+	select {
+	case ar := <-acq:
+		if ar.ok {
+			got = ar.a
+		}
+		cancel()
+		rr = <-runDone
+	case rr = <-runDone:
+		select {
+		case ar := <-acq:
+			if ar.ok {
+				got = ar.a
+			}
+		case <-time.After(300 * time.Millisecond):
+			info["acquire_still_blocked_after_run_returned"] = true
+		}
+	case pm := <-panics:
+		return append(evs, mfEvent{"Panic", trunc(pm, 200)}), info
+	}
+	if rr.err == context.Canceled {
+		rr.err = nil
+	}
+	info["run_err"] = errStr(rr.err)
+	if rr.panicked {
+		pm := "Run panicked"
+		select {
+		case pm = <-panics:
+		default:
+		}
+		return append(evs, mfEvent{"Panic", trunc(pm, 200)}), info
+	}
+	if rr.err != nil || got == nil {
+		if rr.err == nil {
 			info["run_err"] = "no ammo acquired"
 		}
-		evs = append(evs, mfEvent{"End", "rejected"})
-		return line()
+		return append(evs, mfEvent{"End", "rejected"}), info
 	}
 	evs = append(evs, mfEvent{"Stage", "run"})
 	// prepare / post under recover, in this goroutine (the gun would run them on the instance goroutine)
 	var se *mfStageErr
-	panics := make(chan string, 1)
 	safely(panics, "shootStep", func() {
 		if proto == "http" {
 			se = mfHTTPSteps(got.(*httpgun.Scenario))
@@ -226,8 +310,7 @@ func mfRunDescCase(c mfCase) mfLine {
 	})
 	select {
 	case p := <-panics:
-		evs = append(evs, mfEvent{"Panic", trunc(p, 200)})
-		return line()
+		return append(evs, mfEvent{"Panic", trunc(p, 200)}), info
 	default:
 	}
 	if se != nil {
@@ -235,11 +318,9 @@ func mfRunDescCase(c mfCase) mfLine {
 		if se.stage == "post" {
 			evs = append(evs, mfEvent{"Stage", "prepare"})
 		}
-		evs = append(evs, mfEvent{"End", "rejected"})
-		return line()
+		return append(evs, mfEvent{"End", "rejected"}), info
 	}
-	evs = append(evs, mfEvent{"Stage", "prepare"}, mfEvent{"Stage", "post"}, mfEvent{"End", "accepted"})
-	return line()
+	return append(evs, mfEvent{"Stage", "prepare"}, mfEvent{"Stage", "post"}, mfEvent{"End", "accepted"}), info
 }
 
 type mfCanned struct {
@@ -275,7 +356,7 @@ func mfHTTPSteps(ammo *httpgun.Scenario) *mfStageErr {
 		}
 		cr, ok := mfResponses[step.Name]
 		if !ok {
-			machinery("no canned response for step %q", step.Name)
+			cr = mfCanned{"text/plain", nil, "ok"} // a step renamed by a mutation
 		}
 		resp := &http.Response{StatusCode: 200, Header: http.Header{"Content-Type": {cr.ctype}}, Body: io.NopCloser(strings.NewReader(cr.body))}
 		for k, v := range cr.hdr {
@@ -325,7 +406,7 @@ func mfGRPCSteps(ammo *grpcgun.Scenario) *mfStageErr {
 		stepVars["preprocessor"] = pre
 		out, ok := mfGRPCOut[step.Name]
 		if !ok {
-			machinery("no canned output for call %q", step.Name)
+			out = map[string]any{} // a call renamed by a mutation
 		}
 		stepVars["postprocessor"] = out
 	}
